@@ -860,6 +860,13 @@ Section ParserSim.
       inversion H; subst x'. destruct (lookup k (ps_slots st)) as [[| | |t]|]; try (apply rel_out_skip, R). apply rel_out; [exact R|exact I].
     - (* PIf *)
       destruct p1; try discriminate. destruct e; try discriminate. destruct z; try discriminate. destruct p2; try discriminate.
+      destruct (len_check ap c) as [b|] eqn:LC.
+      { destruct b; [|discriminate]. inversion H; subst x'; clear H.
+        unfold len_check in LC. destruct c; try discriminate. destruct c1; try discriminate. destruct c2; try discriminate.
+        inversion LC as [LC']. apply Z.leb_le in LC'. cbn [iub ieval orb e_len penv]. rewrite Hlen. unfold zlen.
+        rewrite <- (Forall2_len _ _ _ Hdata).
+        replace (Z.of_nat (length ap) <? z) with false by (symmetry; apply Z.ltb_ge; exact LC'). cbn [b2z Z.eqb exec_p].
+        destruct (ps_ret (flag_ub false st)); apply rel_noflag, R. }
       destruct (abs (slot_env (a_slots x)) c) as [v|] eqn:E; [|discriminate].
       destruct (is_zero_av v) eqn:Zv; [|discriminate]. inversion H; subst x'; clear H.
       destruct (abs_sound beta (slot_env (a_slots x)) (penv pargs m st)) with (e := c) (v := v) as [Rv U].
